@@ -1,0 +1,45 @@
+//go:build verif
+
+// Contracts for /verif (build tag "verif"): //@ comment blocks and pure ghost functions only.
+package backend
+
+import (
+	"github.com/tetratelabs/wazero/internal/engine/wazevo/backend/regalloc"
+	"github.com/tetratelabs/wazero/internal/engine/wazevo/ssa"
+)
+
+var (
+	_ regalloc.RealReg
+	_ ssa.Type
+)
+
+func validType(t ssa.Type) bool {
+	return t == ssa.TypeI32 || t == ssa.TypeI64 || t == ssa.TypeF32 || t == ssa.TypeF64 || t == ssa.TypeV128
+}
+
+// slot size of a value passed on the stack: 8 bytes, 16 for a vector
+func slotSize(t ssa.Type) int64 {
+	if t == ssa.TypeV128 {
+		return 16
+	}
+	return 8
+}
+
+//@ prop C08
+// Calling convention shared by the trampolines, the entry preambles and compiled calls: for ANY number
+// and mix of i32/i64/f32/f64/v128 values, value i keeps its position and type, and the values that do
+// not fit in registers get stack slots that lie inside the reported area, are large enough for their
+// type and do not overlap (increasing offsets).
+//@ func (a *FunctionABI) setABIArgs(s []ABIArg, types []ssa.Type, ints, floats []regalloc.RealReg) (stackSize int64)
+//@   requires len(s) >= len(types) && len(types) < 1<<30 && forall i int :: 0 <= i && i < len(types) ==> validType(types[i])
+//@   requires !verif_same_array(ints, floats)
+//@   ensures[position-and-type-kept] forall i int :: 0 <= i && i < len(types) ==> s[i].Index == i && s[i].Type == types[i]
+//@   ensures[stack-slots-inside-the-area] stackSize >= 0 && forall i int :: 0 <= i && i < len(types) && s[i].Kind == ABIArgKindStack ==> 0 <= s[i].Offset && s[i].Offset+slotSize(types[i]) <= stackSize
+//@   ensures[stack-slots-do-not-overlap] forall i int, j int :: 0 <= i && i < j && j < len(types) && s[i].Kind == ABIArgKindStack && s[j].Kind == ABIArgKindStack ==> s[i].Offset+slotSize(types[i]) <= s[j].Offset
+//@   ensures[register-or-stack] forall i int :: 0 <= i && i < len(types) ==> s[i].Kind == ABIArgKindStack || s[i].Kind == ABIArgKindReg
+//@   nosafety
+//@   loop 0 (stackOffset int64, rangeindex int)
+//@     invariant stackOffset >= 0 && stackOffset <= 16*int64(rangeindex+1) && rangeindex >= -1 && rangeindex < len(types)
+//@     invariant forall i int :: 0 <= i && i <= rangeindex && i < len(types) ==> s[i].Index == i && s[i].Type == types[i] && (s[i].Kind == ABIArgKindStack || s[i].Kind == ABIArgKindReg)
+//@     invariant forall i int :: 0 <= i && i <= rangeindex && i < len(types) && s[i].Kind == ABIArgKindStack ==> 0 <= s[i].Offset && s[i].Offset+slotSize(types[i]) <= stackOffset
+//@     invariant forall i int, j int :: 0 <= i && i < j && j <= rangeindex && j < len(types) && s[i].Kind == ABIArgKindStack && s[j].Kind == ABIArgKindStack ==> s[i].Offset+slotSize(types[i]) <= s[j].Offset
